@@ -577,7 +577,7 @@ RULES['C06'] = 'hostile inputs per type in 8 classes (random bytes, byte-mutated
 
 RULES['C07'] = 'encodings (with unknown records, bytes/string in every position) placed in mmap pages flush against a PROT_NONE guard page; pages are read-only during Unmarshal, overwritten and unmapped afterwards while the message is fingerprinted and re-marshalled; struct fingerprints (incl. nil-vs-empty, sizeCache, oneof wrapper) around 17 read-only operations, also on structs with empty-but-allocated containers; Marshal outputs of 6 entry points scribbled / message byte slices flipped (also for messages holding only unknown fields); appending Marshal with caller-owned bytes already in the buffer (with/without spare capacity) leaves them intact; non-trivial = non-empty input; distinct by type+input'
 
-RULES['C15'] = 'Sov/Soz: EXHAUSTIVE over every x in [0,2^32) as low word, as x<<32 and x<<32|0xffffffff, plus all 64 bit-length boundaries +-2, against protowire; EncodeVarint: boundaries at offsets 10..20 and a stride sample (quick) / full 32-bit range (thorough) with canary bytes on both sides; Skip: seeded well-formed records (all wire types, groups nested to depth 64; groups nested 9998..10003 and 20000 deep around protowire's limit; 10001..12000 sibling groups) with and without tails, mutated records, random bytes and adversarial lengths, against protowire.ConsumeField; distinct by value / input'
+RULES['C15'] = 'Sov/Soz: EXHAUSTIVE over every x in [0,2^32) as low word, as x<<32 and x<<32|0xffffffff, plus all 64 bit-length boundaries +-2, against protowire; EncodeVarint: boundaries at offsets 10..20 and a stride sample (quick) / full 32-bit range (thorough) with canary bytes on both sides; Skip: seeded well-formed records (all wire types, groups nested to depth 64; groups nested 9998..10003 and 20000 deep around the protowire limit; 10001..12000 sibling groups) with and without tails, mutated records, random bytes and adversarial lengths, against protowire.ConsumeField; distinct by value / input'
 RULES['C16'] = 'seeded values of every subject type packed with New / MarshalFrom(Deterministic) / the deprecated any alias, unpacked through the default registry, through an empty type registry (file-registry + dynamicpb path) and through a custom file registry; hostile Any values (URLs naming enums, enum values, services, methods, fields, oneofs, extensions, nothing, garbage, host-prefixed - the whole list once per type in every tier; corrupt values) under 4 resolver configurations; failed packs with sentinel destinations; distinct by type+value / url+resolver'
 RULES['C17'] = 'Add/AddStd/Compare vs math/big nanosecond arithmetic: exhaustive grid over carry/borrow boundary values of nanos x sign combinations x range extremes, seeded random valid (t,d) pairs, an overflow class with arbitrary int64 seconds; Compare on all pairs of a pool incl. equal and adjacent instants + transitivity triples; non-trivial = non-zero duration / distinct pool elements'
 RULES['C18'] = 'rapidproto.MessageGenerator draws (rapid Example with seeded seeds) for every subject type and a dynamicpb twin under the 16 combinations of NoEmptyLists / DisallowNilMessages / a string field mapper / Any type URLs; every drawn message is walked by reflection (UTF-8, Timestamp/Duration validity, Any resolvable+decodable, FieldMask paths, declared enum numbers, option obligations) and round-tripped through the reference codec; distinct by type+options+seed'
